@@ -8,7 +8,7 @@ ID = "C10"
 SWITCH_OFF = 6        # every 6th case runs with xfab.CHECKS switched off (results must not depend on it)
 TARGETED = True     # thorough tier uses hypothesis.target on the residual/tolerance ratios
 RULE = ("Hypothesis: 2theta in (0.5,60) deg, eta in [-2pi,2pi], tilts in [-0.3,0.3]^3, distance 10..1000, pixel sizes "
-        "0.01..0.5, beam centre in [-3000,3000]^2, grain offset in [-2,2]^3, wavelength 0.1..2; oracle = ray/plane "
+        "0.01..0.5, beam centre in [-3000,3000]^2, grain offset in [-2,2]^3 (floats or whole numbers typed as ints), wavelength 0.1..2; oracle = ray/plane "
         "geometry written independently. Non-trivial = some tilt > 0.05 and grain offset > 0.1")
 ASSUMPTIONS = ["pixel agreement 1e-7 relative to (1+|value|), off-ray distance 1e-9 x distance",
                "detector plane: normal = first column of R_tilt through (distance,0,0)"]
